@@ -10,7 +10,8 @@ R04.7 the out-of-equilibrium T30 / T33 assembled from the moments equal the dire
 
 Recognition is by role, not by spelling: locals are identified by what is assigned to them (result of minimize_scalar / root_scalar,
 tuple position of a known API call, `c1 - T30_out`, ...), expressions are compared through normal forms (`nf.eqx` / `nf.match`) that look
-through temporaries and simple helpers, and the residual function may be a lambda or a local closure.
+through temporaries and simple helpers, and the residual function may be a lambda or a local closure.  A pair may be assigned as a pair
+(`a, b = e1, e2`: what is left of an inlined helper returning it), be returned by a simple helper, or be read by index from a local holding it.
 """
 from __future__ import annotations
 
@@ -161,9 +162,29 @@ def _base(name: str) -> str:
     return b[:-5] if b.endswith("Input") and len(b) > 5 else b
 
 
-def _role_map(fi, outer: dict | None = None) -> dict:
+def _returned_tuple(S, fi, v, length: int):
+    """the tuple display a call of a simple helper (straight-line body + one `return a, b, ...`) evaluates to, written over the caller's names"""
+    if S is None or not isinstance(v, ast.Call):
+        return None
+    cx = Ctx(S, fi)
+    if cx.helper_body(v) is None:
+        return None
+    r = cx.resolve(v, keep=set(cx.local_defs()), keep_calls=set())
+    return r if isinstance(r, (ast.Tuple, ast.List)) and length in (None, len(r.elts)) else None
+
+
+def _int_index(sl):
+    if isinstance(sl, ast.Constant) and isinstance(sl.value, int) and not isinstance(sl.value, bool):
+        return sl.value
+    if isinstance(sl, ast.UnaryOp) and isinstance(sl.op, ast.USub) and isinstance(sl.operand, ast.Constant) and isinstance(sl.operand.value, int):
+        return -sl.operand.value
+    return None
+
+
+def _role_map(fi, outer: dict | None = None, S=None) -> dict:
     """local name -> role (None: no role established).  Parameters carry the role their name declares (API); a local gets the role of what
-    is assigned to it: a tuple position of findHydroBoundaries / wallProfile, a phase location, `c1 - ...` (s1), `c2 - ...` (s2), a copy."""
+    is assigned to it: a tuple position of findHydroBoundaries / wallProfile, a phase location, `c1 - ...` (s1), `c2 - ...` (s2), a copy;
+    `a, b = e1, e2` assigns element by element (also when the pair is held in a temporary or returned by a simple helper)."""
     roles: dict = dict(outer or {})
     for p in fi.params():
         roles[p] = _base(p)
@@ -174,7 +195,7 @@ def _role_map(fi, outer: dict | None = None) -> dict:
         if isinstance(st, ast.Name) and isinstance(st.ctx, ast.Store):
             stores.setdefault(st.id, []).append(st)
     temps = {st.targets[0].id: st.value for st in own_nodes(fi.node) if isinstance(st, ast.Assign) and len(st.targets) == 1 and isinstance(st.targets[0], ast.Name)
-             and isinstance(st.value, ast.Call) and len(stores.get(st.targets[0].id, [])) == 1}
+             and isinstance(st.value, (ast.Call, ast.Tuple)) and len(stores.get(st.targets[0].id, [])) == 1}
 
     def add(name, what):
         assigned.setdefault(name, []).append(what)
@@ -199,6 +220,17 @@ def _role_map(fi, outer: dict | None = None) -> dict:
             elif isinstance(t, (ast.Tuple, ast.List)):
                 if isinstance(v, ast.Name) and v.id in temps:
                     v = temps[v.id]
+                v = _returned_tuple(S, fi, v, len(t.elts)) or v
+                if isinstance(v, (ast.Tuple, ast.List)) and len(v.elts) == len(t.elts) and not any(isinstance(e, ast.Starred) for e in list(t.elts) + list(v.elts)):
+                    # `a, b = e1, e2` (what is left of an extracted helper returning a pair, or a pair held in a temporary): element by element
+                    for e, ve in zip(t.elts, v.elts):
+                        if isinstance(e, ast.Name):
+                            add(e.id, ("expr", ve))
+                        else:
+                            for x in ast.walk(e):
+                                if isinstance(x, ast.Name) and isinstance(x.ctx, ast.Store):
+                                    add(x.id, ("none",))
+                    continue
                 short = (dotted(v.func) or "").split(".")[-1] if isinstance(v, ast.Call) else ""
                 for i, e in enumerate(t.elts):
                     if isinstance(e, ast.Name):
@@ -219,6 +251,20 @@ def _role_map(fi, outer: dict | None = None) -> dict:
             # boundary constant minus the out-of-equilibrium stress (any spelling of `c - out` / `c - out[k]`)
             b = match(v, "__c - __o") or match(v, "__c - __o[0]") or match(v, "__c - __o[1]")
             return {"c1": "s1", "c2": "s2"}.get(roles.get(b["c"])) if b else None
+        if isinstance(v, ast.Subscript) and (i := _int_index(v.slice)) is not None:
+            # element i of a call result / of a pair held in a single-assignment local: `res[0]` is what `a, b = res` puts in `a`.  The elements of
+            # an API result belong together (the fields and the gradient of one wall, the boundary data of one velocity): the role is established
+            # only when every element is read from that one evaluation -- `self.wallProfile(..)[0]` alone, which drops its partner, has none
+            src_ = temps.get(v.value.id) if isinstance(v.value, ast.Name) else None
+            src_ = _returned_tuple(S, fi, src_, None) or src_
+            if isinstance(src_, ast.Call):
+                rr = RET_ROLES.get((dotted(src_.func) or "").split(".")[-1], ())
+                taken = {k % len(rr) for x in own_nodes(fi.node) if isinstance(x, ast.Subscript) and isinstance(x.value, ast.Name) and x.value.id == v.value.id
+                         and (k := _int_index(x.slice)) is not None and -len(rr) <= k < len(rr)} if rr else set()
+                return rr[i] if -len(rr) <= i < len(rr) and taken == set(range(len(rr))) else None
+            if isinstance(src_, (ast.Tuple, ast.List)) and not any(isinstance(e, ast.Starred) for e in src_.elts) and -len(src_.elts) <= i < len(src_.elts):
+                return expr_role(src_.elts[i])
+            return None
         if isinstance(v, ast.Call) and isinstance(v.func, ast.Attribute) and v.func.attr == "getFieldPoint" and isinstance(v.func.value, ast.Name):
             return roles.get(v.func.value.id)          # one point of a profile keeps the profile's role
         if isinstance(v, ast.Attribute) and v.attr == "fieldsAtMinimum" and isinstance(v.value, ast.Call):
@@ -260,7 +306,7 @@ def r04_3(chk: Check, P: "_Point"):
     # role agreement of arguments through the EOM call chain
     methods = S.cls(EOM).methods
     for cname, fm in sorted(methods.items()):
-        scopes = [(fm, _role_map(fm))]
+        scopes = [(fm, _role_map(fm, S=S))]
         for q, f_ in S.modules[fm.module].funcs.items():
             par = f_.parent
             chain = []
@@ -269,10 +315,10 @@ def r04_3(chk: Check, P: "_Point"):
                 par = par.parent
             if chain and chain[-1] is fm:
                 # closures see the enclosing function's locals
-                outer = _role_map(fm)
+                outer = _role_map(fm, S=S)
                 for anc in reversed(chain[:-1]):
-                    outer = _role_map(anc, outer)
-                scopes.append((f_, _role_map(f_, outer)))
+                    outer = _role_map(anc, outer, S)
+                scopes.append((f_, _role_map(f_, outer, S)))
         for fi, roles in scopes:
             for c in sorted([x for x in own_nodes(fi.node) if isinstance(x, ast.Call)], key=lambda x: (-x.lineno, -x.col_offset)):
                 if not (isinstance(c.func, ast.Attribute) and isinstance(c.func.value, ast.Name) and c.func.value.id == "self" and c.func.attr in methods):
@@ -305,9 +351,28 @@ def r04_3(chk: Check, P: "_Point"):
     unp = [(st, v) for st, v in unp if isinstance(v, ast.Call) and eqx(v.func, "self.hydrodynamics.findHydroBoundaries")]
     ok = len(unp) == 1 and len(unp[0][0].targets[0].elts) == 5 and all(isinstance(e, ast.Name) for e in unp[0][0].targets[0].elts) \
         and eqx(kwarg(unp[0][1], "vwTry", 0), _params(fw)[0], cw)
+    names = [e.id for e in unp[0][0].targets[0].elts] if ok else []
+    if not unp:
+        # ... or reads the five elements by index from a local holding the result: `res = findHydroBoundaries(v)`, `c1 = res[0]`, ...
+        held = [st for st in own_nodes(fw.node) if isinstance(st, ast.Assign) and len(st.targets) == 1 and isinstance(st.targets[0], ast.Name)
+                and isinstance(st.value, ast.Call) and eqx(st.value.func, "self.hydrodynamics.findHydroBoundaries")]
+        if len(held) == 1 and held[0].targets[0].id in cw.local_defs() and eqx(kwarg(held[0].value, "vwTry", 0), _params(fw)[0], cw):
+            R = held[0].targets[0].id
+            by_pos: dict = {}
+            for st in own_nodes(fw.node):
+                if not (isinstance(st, ast.Assign) and len(st.targets) == 1):
+                    continue
+                t, v = st.targets[0], st.value
+                pairs = [(t, v)] if isinstance(t, ast.Name) else list(zip(t.elts, v.elts)) if isinstance(t, ast.Tuple) and isinstance(v, ast.Tuple) and len(t.elts) == len(v.elts) else []
+                for tt, vv in pairs:
+                    if isinstance(tt, ast.Name) and isinstance(vv, ast.Subscript) and isinstance(vv.value, ast.Name) and vv.value.id == R and (i := _int_index(vv.slice)) is not None:
+                        by_pos.setdefault(i % 5 if -5 <= i < 5 else i, []).append(tt.id)
+            other = sum(1 for x in own_nodes(fw.node) if isinstance(x, ast.Name) and x.id == R and isinstance(x.ctx, ast.Load)) - sum(len(v) for v in by_pos.values())
+            if sorted(by_pos) == [0, 1, 2, 3, 4] and all(len(v) == 1 and v[0] in cw.local_defs() for v in by_pos.values()) and other == 0:
+                names = [by_pos[i][0] for i in range(5)]
+                ok = True
     if ok:
         # the element at position i is handed on under the role of position i (at least once; every hand-over is checked above)
-        names = [e.id for e in unp[0][0].targets[0].elts]
         handed = {}
         for c in own_nodes(fw.node):
             if isinstance(c, ast.Call) and isinstance(c.func, ast.Attribute) and isinstance(c.func.value, ast.Name) and c.func.value.id == "self" and c.func.attr in methods:
@@ -317,6 +382,21 @@ def r04_3(chk: Check, P: "_Point"):
                         handed.setdefault(a.id, set()).add(_base(p))
         ok = len(set(names)) == 5 and all(handed.get(nm, set()) & ROLE_NAMES == {role} for nm, role in zip(names, RET_ROLES["findHydroBoundaries"]))
     chk.ob("R04.3", fw.where(), "wallPressure unpacks findHydroBoundaries(wallVelocity) as (c1, c2, T+, T-, vMid), its return order", ok, key="unpack")
+    # the phase locations handed on as vevLowT / vevHighT are those of the temperatures behind / in front of the wall: the low-T minimum is
+    # evaluated at (the clamped) T-, the high-T minimum at (the clamped) T+ -- also when that is computed by a helper returning the pair
+    roles_w = _role_map(fw, S=S)
+    seen: dict = {"freeEnergyLow": {}, "freeEnergyHigh": {}}
+    for st in own_nodes(fw.node):
+        if isinstance(st, (ast.Assign, ast.AnnAssign)) and st.value is not None:
+            for x in ast.walk(cw.resolve(st.value, keep={nm for nm, r_ in roles_w.items() if r_ in ("Tplus", "Tminus")}, keep_calls=set())):
+                if isinstance(x, ast.Attribute) and x.attr == "fieldsAtMinimum" and isinstance(x.value, ast.Call):
+                    br = (dotted(x.value.func) or "").split(".")[-1]
+                    T = kwarg(x.value, "x", 0)
+                    if br in seen and T is not None:
+                        seen[br][nf(x)] = {roles_w.get(y.id) for y in ast.walk(T) if isinstance(y, ast.Name)} & {"Tplus", "Tminus"}
+    for br, temp, what in (("freeEnergyLow", "Tminus", "low-T phase at T-"), ("freeEnergyHigh", "Tplus", "high-T phase at T+")):
+        chk.ob("R04.3", fw.where(), f"wallPressure locates the {what} (the temperature handed to {br} is computed from {temp} alone)",
+               bool(seen[br]) and all(r == {temp} for r in seen[br].values()), str({k[:60]: sorted(v) for k, v in seen[br].items()})[:300], key=f"phase-temperature|{br}")
     fo = S.func(f"{EOM}.findPlasmaProfile")
     chk.touch(fo.name)
     co = Ctx(S, fo)
